@@ -73,36 +73,78 @@ theorem ttm_eq_ok {T : Dense ℝ} {U : Mat ℝ} {n : Nat} {tr : Bool} (hn : n < 
   rw [if_pos]
   simp [hn, hd]
 
-theorem foldlM_ttm_ok (Us : List (Mat ℝ)) (tr : Bool) :
-    ∀ (dims : List Nat) (T Y : Dense ℝ), dims.foldlM (fun Y k => ttm Y (Us.getD k []) k tr) T = .ok Y →
-      Y = ttmFold T (dims.map fun k => (k, Us.getD k [])) tr := by
-  intro dims
-  induction dims with
+theorem foldlM_ttm_ok (tr : Bool) :
+    ∀ (l : List (Nat × Mat ℝ)) (T Y : Dense ℝ), l.foldlM (fun Y p => ttm Y p.2 p.1 tr) T = .ok Y →
+      Y = ttmFold T l tr := by
+  intro l
+  induction l with
   | nil => intro T Y h; simp only [List.foldlM_nil] at h; cases h; rfl
-  | cons k dims ih =>
+  | cons p l ih =>
     intro T Y h
+    obtain ⟨k, U⟩ := p
     simp only [List.foldlM_cons] at h
-    cases hf : ttm T (Us.getD k []) k tr with
+    cases hf : ttm T U k tr with
     | error e => rw [hf] at h; cases h
     | ok Y1 =>
       rw [hf] at h
       rw [(ttm_ok hf).1] at h
       simpa using ih _ _ h
 
+/-- A successful list product is the fold over the (mode, matrix) pairs chosen by `tt_dimscheck`. -/
 theorem ttmDims_ok {T Y : Dense ℝ} {Us : List (Mat ℝ)} {dims : List Nat} {tr : Bool}
-    (h : ttmDims T Us dims tr = .ok Y) : Y = ttmFold T (dims.map fun k => (k, Us.getD k [])) tr := by
+    (h : ttmDims T Us dims tr = .ok Y) :
+    Y = ttmFold T (ttmPairs Us dims) tr ∧ (Us.length = T.shape.length ∨ Us.length = dims.length) := by
   unfold ttmDims at h
   split at h
   · cases h
   · split at h
     · cases h
-    · exact foldlM_ttm_ok Us tr dims T Y h
+    · rename_i h2
+      split at h
+      · cases h
+      · refine ⟨foldlM_ttm_ok tr _ T Y h, ?_⟩
+        simp only [Bool.and_eq_true, bne_iff_ne, ne_eq, not_and, Decidable.not_not] at h2
+        by_cases hl : Us.length = T.shape.length
+        · exact Or.inl hl
+        · exact Or.inr (h2 hl)
 
 /-- The list of (mode, factor) pairs in increasing mode order. -/
 def ascList (Us : List (Mat ℝ)) (d : Nat) : List (Nat × Mat ℝ) := (List.range d).map fun k => (k, Us.getD k [])
 
+theorem zip_range_self (n : Nat) : (List.range n).zip (List.range n) = (List.range n).map fun k => (k, k) := by
+  rw [List.zip_eq_zipWith]
+  apply List.ext_getElem (by simp)
+  intro i h1 h2
+  simp
+
+theorem ttmPairs_range (Us : List (Mat ℝ)) (d : Nat) : ttmPairs Us (List.range d) = ascList Us d := by
+  unfold ttmPairs ascList
+  split
+  · rw [List.length_range, zip_range_self, List.map_map]
+    rfl
+  · rfl
+
+theorem ttmPairs_by_mode (Us : List (Mat ℝ)) (dims : List Nat) (h : dims.length ≠ Us.length) :
+    ttmPairs Us dims = dims.map fun k => (k, Us.getD k []) := by
+  unfold ttmPairs
+  rw [if_neg (by simpa using h)]
+
+theorem ttmPairs_single (Us : List (Mat ℝ)) (n : Nat) (hn : n < Us.length) :
+    ttmPairs Us [n] = [(n, Us.getD n [])] := by
+  unfold ttmPairs
+  split
+  · rename_i h
+    have h1 : Us.length = 1 := by
+      have := h; simp only [List.length_cons, List.length_nil, beq_iff_eq] at this; omega
+    have : n = 0 := by omega
+    subst this
+    rfl
+  · rfl
+
 theorem ttmAll_ok {T Y : Dense ℝ} {Us : List (Mat ℝ)} {tr : Bool} (h : ttmAll T Us tr = .ok Y) :
-    Y = ttmFold T (ascList Us T.shape.length) tr := ttmDims_ok h
+    Y = ttmFold T (ascList Us T.shape.length) tr := by
+  have := (ttmDims_ok h).1
+  rwa [ttmPairs_range] at this
 
 theorem ascList_fst_nodup (Us : List (Mat ℝ)) (d : Nat) : ((ascList Us d).map Prod.fst).Nodup := by
   simp only [ascList, List.map_map, Function.comp_def, List.map_id']
